@@ -88,6 +88,19 @@ def run_coefs(fn, featid=None):
     return s, args, hy
 
 
+def loop_var_by_bound(ev, bound):
+    """The loop variable of the event whose (exclusive) upper bound is the given term: loops are identified by what they range over, not by the
+    name the source gives their counter."""
+    nfc = NF()
+    for qv, lo, hi, st in ev.qvars:
+        try:
+            if nfc.equal(tm.lift(hi), tm.lift(bound)) and nfc.equal(tm.lift(lo), tm.ZERO):
+                return qv
+        except NFError:
+            pass
+    return None
+
+
 def final_writes(s, arr):
     """Value finally stored at the element written by the (single) '=' event of `arr`, with later '+=' / '-=' events at the same index folded in."""
     evs = [e for e in s.events if e.kind == "w" and e.arr.name == arr]
@@ -126,12 +139,11 @@ def unit_gto(order):
             ctx.holds("%s[%s] writes p and dp once per (grid point, control point)" % (fn, spec), ev is not None and dev is not None, "", fq)
             if ev is None or dev is None:
                 continue
-            qv = [q[0] for q in ev.qvars]
-            g, a = (qv[0], qv[1]) if order == "gq" else (qv[1], qv[0]) if len(qv) == 2 and qv[0].args[0].startswith("a") else (qv[0], qv[1])
-            # identify loop variables by name
-            gv = [q for q in qv if q.args[0].split("#")[0] == "g"][0]
-            av = [q for q in qv if q.args[0].split("#")[0] == "a"][0]
             ng, na = args["ngrids"], args["nalpha"]
+            gv, av = loop_var_by_bound(ev, ng), loop_var_by_bound(ev, na)
+            if gv is None or av is None:
+                ctx.undecided("%s[%s] loop structure" % (fn, spec), "no loop over [0, ngrids) x [0, nalpha) around the store", fq)
+                continue
             want_idx = gv * na + av if order == "gq" else av * ng + gv
             H = hy + list(ev.guards)
             r_, _, be = intarith.check_sat_int(H + [tm.mk_not(tm.mk_eq(ev.idx, want_idx))], 5.0)
@@ -203,8 +215,10 @@ def unit_other_coefs(ctx):
         if ev is None:
             ctx.holds("%s writes p" % fn, False, "", fq)
             continue
-        gv = [q[0] for q in ev.qvars if q[0].args[0].split("#")[0] == "g"][0]
-        av = [q[0] for q in ev.qvars if q[0].args[0].split("#")[0] == "a"][0]
+        gv, av = loop_var_by_bound(ev, args["ngrids"]), loop_var_by_bound(ev, args["nalpha"])
+        if gv is None or av is None:
+            ctx.undecided("%s loop structure" % fn, "no loop over [0, ngrids) x [0, nalpha) around the store", fq)
+            continue
         aG, al = rd("exp_g", gv), rd("alphas", av)
         Hr = hy + list(ev.guards) + [tm.mk_lt(tm.ZERO, aG), tm.mk_lt(tm.ZERO, al)]
         ctx.equal("%s p(g, a) = exp(-3 a_g / (2 alpha_a))  (version-k damping)" % fn, Hr, val, tm.mk_fn("exp", Q(-3, 2) * aG / al), fq)
@@ -241,8 +255,10 @@ def unit_other_coefs(ctx):
         if ev is None or dev is None:
             ctx.holds("%s writes p and dp" % fn, False, "", fq)
             continue
-        gv = [q[0] for q in ev.qvars if q[0].args[0].split("#")[0] == "g"][0]
-        av = [q[0] for q in ev.qvars if q[0].args[0].split("#")[0] == "a"][0]
+        gv, av = loop_var_by_bound(ev, args["ngrids"]), loop_var_by_bound(ev, args["nalpha"])
+        if gv is None or av is None:
+            ctx.undecided("%s loop structure" % fn, "no loop over [0, ngrids) x [0, nalpha) around the store", fq)
+            continue
         d = rd("di_g", gv)
         ii = tm.mk_fn("trunc", d)
         x = d - ii
@@ -361,8 +377,27 @@ def unit_sdmx_l1_rows(ctx):
         nd = getattr(s, "niter_defs", {})
         n = 0
         for e in oblig._dedupe_l(rds):
-            names = {q[0].args[0].split("#")[0]: q[0] for q in e.qvars}
-            if not all(k in names for k in ("sh", "irf", "m", "g", "thread")):
+            # loops by what they range over: irf over [rf_loc[sh], rf_loc[sh+1]); sh is the index of that table read; m over [0, 2l+1) with
+            # l = bas[8 sh + 1]; the innermost loop is the grid point; the worksharing variable is the thread block
+            names = {}
+            for qv, lo, hi, st in e.qvars:
+                lo_, hi_ = tm.lift(lo), tm.lift(hi)
+                if lo_.op == "fi" and lo_.args[0] == "rf_loc":
+                    names["irf"] = qv
+                    names["sh"] = lo_.args[1]
+            if "sh" in names:
+                l_ = tm.mk_fi("bas", 8 * names["sh"] + 1)
+                for qv, lo, hi, st in e.qvars:
+                    try:
+                        if tm.lift(lo) is tm.ZERO and NF().equal(tm.lift(hi), 2 * l_ + 1):
+                            names["m"] = qv
+                    except NFError:
+                        pass
+            if e.qvars:
+                names["g"] = e.qvars[-1][0]
+            if e.par is not None:
+                names["thread"] = e.par
+            if not all(k in names for k in ("sh", "irf", "m", "g", "thread")) or len(set(v.id for v in names.values())) != 5:
                 continue
             sh, irf, m = names["sh"], names["irf"], names["m"]
             l = tm.mk_fi("bas", 8 * sh + 1)
